@@ -220,8 +220,9 @@ func (s cmap0) Iter() CmapIter {
 }
 
 func (s cmap0) Lookup(r rune) (GID, bool) {
-	v, ok := s[r] // will be 0 if r is not in s
-	return GID(v), ok
+	v := s[r] // will be 0 if r is not in s
+	// as in harfbuzz, a mapping to the glyph 0 (.notdef) is "not found"
+	return GID(v), v != 0
 }
 
 // ---------------------------------- Format 4 ----------------------------------
@@ -337,13 +338,17 @@ func (s cmap4) Lookup(r rune) (GID, bool) {
 		} else if entry.end < c {
 			i = h + 1
 		} else if entry.indexes == nil {
-			return GID(c + entry.delta), true
+			// as in harfbuzz, a mapping to the glyph 0 (.notdef) is "not found"
+			// (this is the case of the final 0xFFFF segment)
+			glyph := c + entry.delta
+			return GID(glyph), glyph != 0
 		} else {
 			glyph := entry.indexes[c-entry.start]
 			if glyph == 0 {
 				return 0, false
 			}
-			return GID(uint16(glyph) + entry.delta), true
+			glyph = tables.GlyphID(uint16(glyph) + entry.delta)
+			return GID(glyph), glyph != 0
 		}
 	}
 	return 0, false
@@ -393,7 +398,7 @@ func (s cmap6or10) Lookup(r rune) (GID, bool) {
 	if c >= len(s.entries) {
 		return 0, false
 	}
-	return GID(s.entries[c]), true
+	return GID(s.entries[c]), s.entries[c] != 0
 }
 
 // ---------------------------------- Format 12 ----------------------------------
@@ -456,7 +461,8 @@ func (s cmap12) Lookup(r rune) (GID, bool) {
 		} else if entry.EndCharCode < c {
 			i = h + 1
 		} else {
-			return GID(c - entry.StartCharCode + entry.StartGlyphID), true
+			glyph := GID(c - entry.StartCharCode + entry.StartGlyphID)
+			return glyph, glyph != 0
 		}
 	}
 	return 0, false
@@ -506,7 +512,7 @@ func (s cmap13) Lookup(r rune) (GID, bool) {
 		} else if entry.EndCharCode < c {
 			i = h + 1
 		} else {
-			return GID(entry.StartGlyphID), true
+			return GID(entry.StartGlyphID), entry.StartGlyphID != 0
 		}
 	}
 	return 0, false
